@@ -523,6 +523,7 @@ func run(c *core.Ctx) {
 	}
 	runComposite(c, st, table)
 	runSoft(c, st, table)
+	runScopes(c, st, table)
 }
 
 var Engine = &core.Engine{
